@@ -482,13 +482,15 @@ INSTANCES = {
     'C12': ['dd.bdd.BDD._load', 'dd._copy._dump_bdd',
             'dd._copy._make_node'],
     'C13': ['dd.bdd._image', 'dd.bdd.BDD._top_cofactor'],
-    'C16': ['dd.dddmp.load', 'dd.dddmp.Parser._add_node'],
+    # (C16: the roles in dd.dddmp.load and Parser._add_node are decided by
+    # the loader and parser models of rules/models.py)
+    'C16': [],
     'C18': ['dd.autoref.Function.low', 'dd.autoref.Function.high',
             'dd.autoref.BDD.succ', 'dd.bdd.to_nx',
             'dd.bdd._to_dot'],
 }
 FLOORS = {'C01': 4, 'C02': 1, 'C03': 2, 'C04': 9, 'C05': 2, 'C07': 2,
-          'C10': 2, 'C11': 3, 'C12': 4, 'C13': 3, 'C16': 3, 'C18': 8}
+          'C10': 2, 'C11': 3, 'C12': 4, 'C13': 3, 'C16': 0, 'C18': 8}
 
 
 def seeds_for(P, func):
